@@ -272,18 +272,22 @@ def pointer_width(rep: Report, prog: Program) -> None:
                 and isinstance(n.value, (ast.Call, ast.Subscript)) and ('size' in norm(n.value) or 'shape' in norm(n.value)):
             raw_counters.add(n.targets[0].id)
     raw_tests = [n for n, nd in cfg.nodes.items() if nd.kind == 'test' and names_in(nd.expr) & raw_counters]
-    if raw_tests and not [n for n, nd in cfg.nodes.items() if nd.kind == 'test' and names_in(nd.expr) & counters]:
+    if raw_tests and not [n for n, nd in cfg.nodes.items() if nd.kind == 'test' and (names_in(nd.expr) & counters
+                          or any(isinstance(x, ast.Call) and callee_last(x) == 'len' and len(x.args) == 1 and isinstance(x.args[0], ast.Name) and x.args[0].id in sources for x in ast.walk(nd.expr)))]:
         rc = sorted(raw_counters)[0]
         rep.ob(rule, f.fq(), 'pointer width taken from ptr.size(-1)', f.loc(cfg.nodes[raw_tests[0]].stmt), False,
                f"the number of pointer entries is `{rc}`, the number of physical argmax coordinates of the raw pointer, not the number of summed-out indices: "
                "they differ when a summed-out index is determined by output axes (pairing or diagonal operands)")
         return
-    tests = [n for n, nd in cfg.nodes.items() if nd.kind == 'test' and names_in(nd.expr) & counters]
-    if not tests or len(counters) < 1:
+    # the count may be named (`n = len(ptrs)`) or spelt out in the tests (`len(ptrs) == 0`)
+    len_terms = {norm(x) for n, nd in cfg.nodes.items() if nd.kind == 'test' for x in ast.walk(nd.expr)
+                 if isinstance(x, ast.Call) and callee_last(x) == 'len' and len(x.args) == 1 and isinstance(x.args[0], ast.Name) and x.args[0].id in sources}
+    tests = [n for n, nd in cfg.nodes.items() if nd.kind == 'test' and (names_in(nd.expr) & counters or any(t in norm(nd.expr) for t in len_terms))]
+    if not tests or (len(counters) < 1 and not len_terms):
         rep.error(f"{rule}: no dispatch on the number of summed-out indices found in log_viterbi_einsum_forward")
         return
     first = min(tests, key=lambda n: cfg.nodes[n].lineno)
-    cname = sorted(names_in(cfg.nodes[first].expr) & counters)[0]
+    cname = (sorted(names_in(cfg.nodes[first].expr) & counters) or sorted(t for t in len_terms if t in norm(cfg.nodes[first].expr)))[0]
     for v in range(0, 4):
         env = Env(ints={cname: v})
         r = walk(cfg, first, env, unknown='both')
